@@ -34,14 +34,16 @@ package stdlib
 //@   ensures[C14] value: (and (kn result.0) (= (num_i result.0) (- (num_i (val_at args 0)))) (= (num_r result.0) (- (num_r (val_at args 0)))))
 //
 //@ func stdlib.LessThanFunc.Impl
-//@   tags C11 C14
+//@   tags C11 C14 C12
 //@   spec_args stdlib.LessThanFunc
+//@   ensures[C12] sound: ghost ((c1i Int) (c1r Real) (c2i Int) (c2r Real)) :: (=> (and (not (is_marked (val_at args 0))) (not (is_marked (val_at args 1))) (is_number_ty (vty (val_at args 0))) (is_number_ty (vty (val_at args 1))) (adm (val_at args 0) c1i c1r) (adm (val_at args 1) c2i c2r) (is_known result.0)) (bool_payload result.0 (x_lt c1i c1r c2i c2r)))
 //@   ensures[C11] ok: (and (= result.1 nil.Any) (wf_deep result.0) (is_bool_ty (vty result.0)) (not (is_null result.0)))
 //@   ensures[C14] value: (=> (and (kn (val_at args 0)) (kn (val_at args 1)) (is_number_ty (vty (val_at args 0))) (is_number_ty (vty (val_at args 1)))) (bool_payload result.0 (bf_lt (bf_of (val_at args 0)) (bf_of (val_at args 1)))))
 //
 //@ func stdlib.GreaterThanFunc.Impl
-//@   tags C11 C14
+//@   tags C11 C14 C12
 //@   spec_args stdlib.GreaterThanFunc
+//@   ensures[C12] sound: ghost ((c1i Int) (c1r Real) (c2i Int) (c2r Real)) :: (=> (and (not (is_marked (val_at args 0))) (not (is_marked (val_at args 1))) (is_number_ty (vty (val_at args 0))) (is_number_ty (vty (val_at args 1))) (adm (val_at args 0) c1i c1r) (adm (val_at args 1) c2i c2r) (is_known result.0)) (bool_payload result.0 (x_lt c2i c2r c1i c1r)))
 //@   ensures[C11] ok: (and (= result.1 nil.Any) (wf_deep result.0) (is_bool_ty (vty result.0)) (not (is_null result.0)))
 //@   ensures[C14] value: (=> (and (kn (val_at args 0)) (kn (val_at args 1)) (is_number_ty (vty (val_at args 0))) (is_number_ty (vty (val_at args 1)))) (bool_payload result.0 (bf_lt (bf_of (val_at args 1)) (bf_of (val_at args 0)))))
 //
@@ -54,3 +56,50 @@ package stdlib
 //@   tags C11 C14
 //@   spec_args stdlib.GreaterThanOrEqualToFunc
 //@   ensures[C11] ok: (and (= result.1 nil.Any) (wf_deep result.0) (is_bool_ty (vty result.0)) (not (is_null result.0)))
+//
+// The arithmetic functions turn the math/big NaN panics of the operation methods into errors (their
+// deferred handler re-panics for any other panic value: proved unreachable from the panic_value
+// claims of the operation methods).
+//@ func stdlib.AddFunc.Impl
+//@   tags C11 C14
+//@   spec_args stdlib.AddFunc
+//@   let a (val_at args 0)
+//@   let b (val_at args 1)
+//@   let nan (and (not (= (num_i a) 0)) (= (num_i b) (- (num_i a))))
+//@   ensures[C11] ok: (=> (= err nil.Any) (and (wf_deep ret) (is_number_ty (vty ret)) (not (is_null ret))))
+//@   ensures[C14] fails: (= (not (= err nil.Any)) nan)
+//@   ensures[C14] value: (=> (not nan) (and (kn ret) (= (num_i ret) (ite (not (= (num_i a) 0)) (num_i a) (num_i b))) (=> (and (= (num_i a) 0) (= (num_i b) 0)) (= (num_r ret) (rnd (imax (num_p a) (num_p b)) (+ (num_r a) (num_r b)))))))
+//
+//@ func stdlib.SubtractFunc.Impl
+//@   tags C11 C14
+//@   spec_args stdlib.SubtractFunc
+//@   let a (val_at args 0)
+//@   let b (val_at args 1)
+//@   let nan (and (not (= (num_i a) 0)) (= (num_i b) (num_i a)))
+//@   ensures[C11] ok: (=> (= err nil.Any) (and (wf_deep ret) (is_number_ty (vty ret)) (not (is_null ret))))
+//@   ensures[C14] fails: (= (not (= err nil.Any)) nan)
+//@   ensures[C14] value: (=> (not nan) (and (kn ret) (= (num_i ret) (ite (not (= (num_i a) 0)) (num_i a) (- (num_i b)))) (=> (and (= (num_i a) 0) (= (num_i b) 0)) (= (num_r ret) (rnd (imax (num_p a) (num_p b)) (- (num_r a) (num_r b)))))))
+//
+//@ func stdlib.MultiplyFunc.Impl
+//@   tags C11 C14
+//@   spec_args stdlib.MultiplyFunc
+//@   let a (val_at args 0)
+//@   let b (val_at args 1)
+//@   let A (bf_of a)
+//@   let B (bf_of b)
+//@   let nan (or (and (bf_iszero A) (not (= (bf.inf B) 0))) (and (bf_iszero B) (not (= (bf.inf A) 0))))
+//@   ensures[C11] ok: (=> (= err nil.Any) (and (wf_deep ret) (is_number_ty (vty ret)) (not (is_null ret))))
+//@   ensures[C14] fails: (= (not (= err nil.Any)) nan)
+//@   ensures[C14] value: (=> (not nan) (and (kn ret) (=> (and (= (bf.inf A) 0) (= (bf.inf B) 0)) (and (= (num_i ret) 0) (= (num_r ret) (rnd 512 (* (bf.val A) (bf.val B))))))))
+//
+//@ func stdlib.DivideFunc.Impl
+//@   tags C11 C14
+//@   spec_args stdlib.DivideFunc
+//@   let a (val_at args 0)
+//@   let b (val_at args 1)
+//@   let A (bf_of a)
+//@   let B (bf_of b)
+//@   let nan (or (and (bf_iszero A) (bf_iszero B)) (and (not (= (bf.inf A) 0)) (not (= (bf.inf B) 0))))
+//@   ensures[C11] ok: (=> (= err nil.Any) (and (wf_deep ret) (is_number_ty (vty ret)) (not (is_null ret))))
+//@   ensures[C14] fails: (= (not (= err nil.Any)) nan)
+//@   ensures[C14] value: (=> (not nan) (and (kn ret) (=> (and (= (bf.inf A) 0) (= (bf.inf B) 0) (not (bf_iszero B))) (and (= (num_i ret) 0) (= (num_r ret) (rnd (imax (bf.prec A) (bf.prec B)) (/ (bf.val A) (bf.val B))))))))
